@@ -435,7 +435,66 @@ class Origins:
         summ = self._getter_summary(t)
         if summ is not None and t.args:
             return [o.ext(summ) for o in self.of_operand(t.args[0], depth)]
+        through = self._through_new_private(t, bi, depth)
+        if through is not None:
+            return through
         return [Origin(('call', t.target_fn or '?', bi))]
+
+    def _through_new_private(self, t, bi, depth):
+        """a value computed by a NEW small private helper (one that is not part of the pinned tree,
+        i.e. the product of a refactor) is described by the helper's own return expression with the
+        helper's parameters replaced by the arguments of this call; calls made inside the helper are
+        attributed to the call site"""
+        if self.facts is None or depth <= 0:
+            return None
+        try:
+            from symx import KNOWN_PRIVATE
+        except Exception:
+            return None
+        name = t.target_fn or ''
+        g = self.facts.fns.get(name)
+        if g is None or name in KNOWN_PRIVATE or not str(g.d.get('vis', '')).startswith('Restricted') \
+                or len(g.blocks) > 16 or g.kind not in ('Fn', 'AssocFn') or g.nq == self.fn.nq:
+            return None
+        inner = Origins(g, self.facts)
+        rets = inner.of_local(0, 6)
+
+        def tr(o):
+            r = o.root
+            if r[0] == 'param':
+                i = r[1] - 1
+                if i >= len(t.args):
+                    return None
+                base = self.of_operand(t.args[i], depth)
+                return [b.ext(o.path) if o.path else b for b in base]
+            if r[0] == 'call':
+                x = Origin(('call', r[1], bi))
+                return [x.ext(o.path) if o.path else x]
+            if r[0] == 'const':
+                return [o]
+            if r[0] == 'bin':
+                a = trs(r[2])
+                b = trs(r[3])
+                if a is None or b is None:
+                    return None
+                return [Origin(('bin', r[1], tuple(a), tuple(b)))]
+            if r[0] == 'un':
+                a = trs(r[2])
+                return None if a is None else [Origin(('un', r[1], tuple(a)))]
+            if r[0] == 'cast':
+                a = trs(r[2])
+                return None if a is None else [Origin(('cast', r[1], tuple(a)))]
+            return None
+
+        def trs(os_):
+            out = []
+            for x in os_:
+                y = tr(x)
+                if y is None:
+                    return None
+                out.extend(y)
+            return out
+        return trs(rets)
 
     _summ_cache = {}
 
